@@ -12,7 +12,7 @@ def run(ctx):
     ctx.assumptions += ["S-lex: Pygments honours get_tokens_unprocessed's contract (offsets in order, values tile the text); token text is modelled by its length and whitespace-ness only",
                         "the loop in lex() carries only (newline_index, line_start), which are monotone functions of the last offset seen, so three tokens with arbitrary gaps stand for any three tokens of a longer stream (argument, not solver-checked)"]
     ctx.outside += ["what the real lexers emit for a given text (only the repository's own lexing of sample texts is used, in the replay)", "more than 3 newlines between the observed tokens per query"]
-    T = 200 if ctx.quick() else 900
+    T = 200 if ctx.quick() else 600
     jobs = []
     for K in (0, 1, 2, 3):   # positions: three kept tokens, every interleaving of offsets and newline offsets
         jobs.append(Job("c16.py", "h_lex", {"K": K, "fixed_kind": True}, T, 30, tag=f"positions K={K}", meta={"twin": K >= 1, "sigtag": "lex"}))
